@@ -132,6 +132,10 @@ impl WriteAheadLog {
             .map_err(map_io_error)?;
         let segments = list_segments(&config.wal_dir)?;
         let (segment_id, segment_path) = if let Some(last) = segments.last() {
+            // A crash can leave a partial frame at the end of the active segment.
+            // Remove it before appending, otherwise new entries land behind it and
+            // cannot be read back (readers stop at the first malformed frame).
+            truncate_torn_tail(&last.path)?;
             (last.id, last.path.clone())
         } else {
             let id = 1;
@@ -439,6 +443,29 @@ fn parse_segment_id(name: &str) -> Option<u64> {
 fn last_sequence_for_segment(path: &Path) -> Result<Option<u64>> {
     let entries = read_entries_from_path(path)?;
     Ok(entries.last().map(|entry| entry.seq))
+}
+
+/// Cut a segment back to the end of its last valid entry.
+fn truncate_torn_tail(path: &Path) -> Result<()> {
+    let valid_len: u64 = read_entries_from_path(path)?
+        .iter()
+        .map(|entry| (HEADER_LEN + entry.payload.len()) as u64)
+        .sum();
+    let file_len = std::fs::metadata(path).map_err(map_io_error)?.len();
+    if file_len > valid_len {
+        warn!(
+            "Discarding {} bytes of incomplete WAL data at the end of {:?}",
+            file_len - valid_len,
+            path
+        );
+        let file = StdFile::options()
+            .write(true)
+            .open(path)
+            .map_err(map_io_error)?;
+        file.set_len(valid_len).map_err(map_io_error)?;
+        file.sync_all().map_err(map_io_error)?;
+    }
+    Ok(())
 }
 
 async fn open_segment(path: &Path) -> Result<tokio::fs::File> {
